@@ -1982,6 +1982,14 @@ func (w *Writer) tryConstEvalBinary(b ir.ExprBinary) (string, bool) {
 	if !w.involvesExprConstant(b.Left) && !w.involvesExprConstant(b.Right) {
 		return "", false
 	}
+	// ir.EvalBinaryFloat only implements the four arithmetic operators (it returns 0
+	// for everything else): leave comparisons, logical and bitwise operators to be
+	// written out as expressions.
+	switch b.Op {
+	case ir.BinaryAdd, ir.BinarySubtract, ir.BinaryMultiply, ir.BinaryDivide:
+	default:
+		return "", false
+	}
 	leftVal, leftOk := w.exprConstValue(b.Left)
 	rightVal, rightOk := w.exprConstValue(b.Right)
 	if !leftOk || !rightOk {
